@@ -412,6 +412,35 @@ func runC18(a *Analyzer, r *Results) {
 					if bi, ok := cc.Value.(*ssa.Builtin); ok && bi.Name() == "copy" && isCommitteeSlice(cc.Args[0].Type()) {
 						target, what = cc.Args[0], "copy into"
 					}
+					// append over a shortened view of somebody else's slice (the `s[:0]` filter-in-place idiom): the
+					// appended elements overwrite the owner's elements
+					if bi, ok := cc.Value.(*ssa.Builtin); ok && bi.Name() == "append" && isCommitteeSlice(cc.Args[0].Type()) {
+						base := cc.Args[0]
+						seenPhi := map[ssa.Value]bool{}
+						for steps := 0; steps < 8 && base != nil; steps++ {
+							if sl, isSl := base.(*ssa.Slice); isSl {
+								if sl.High != nil {
+									target, what = sl.X, "append over a shortened view (s[:k]) of"
+								}
+								break
+							}
+							ph, isPhi := base.(*ssa.Phi)
+							if !isPhi || seenPhi[ph] {
+								break
+							}
+							seenPhi[ph] = true
+							var next ssa.Value
+							for _, e := range ph.Edges {
+								if c2, isCall := e.(*ssa.Call); isCall && isBuiltin(c2, "append") {
+									continue
+								}
+								if e != ssa.Value(ph) {
+									next = e
+								}
+							}
+							base = next
+						}
+					}
 					if g := cc.StaticCallee(); g != nil && (funcPkgPath(g) == "sort" || funcPkgPath(g) == "slices" || funcPkgPath(g) == "math/rand") && mutatesSlice(g.Name()) {
 						for _, arg := range cc.Args {
 							v := arg
@@ -428,13 +457,13 @@ func runC18(a *Analyzer, r *Results) {
 					continue
 				}
 				nMut++
-				r.Check("I3.inplace", pr, "a committee slice is reordered or overwritten in place only by the function that allocated it (the order of the committee is the leader schedule every node must agree on)", shortName(f), a.P.InstrPos(in), freshAddr(target),
+				r.Check("I3.inplace", props("C18", "C12", "C02", "C06", "C01"), "a committee slice is reordered or overwritten in place only by the function that allocated it (the order of the committee is the leader schedule every node must agree on)", shortName(f), a.P.InstrPos(in), freshAddr(target),
 					what+" on a committee slice this function did not allocate", "W")
 			}
 		}
 	}
 	if nMut == 0 {
-		r.Check("I3.inplace", pr, "a committee slice is reordered or overwritten in place only by the function that allocated it (the order of the committee is the leader schedule every node must agree on)", "none", a.P.Pos(a.P.Func("services/termincommittee.NewTermInCommittee").Pos()), true, "", "W")
+		r.Check("I3.inplace", props("C18", "C12", "C02", "C06", "C01"), "a committee slice is reordered or overwritten in place only by the function that allocated it (the order of the committee is the leader schedule every node must agree on)", "none", a.P.Pos(a.P.Func("services/termincommittee.NewTermInCommittee").Pos()), true, "", "W")
 	}
 	// I3: committee written only by the constructor, after a positive size guard
 	loc := "termincommittee.TermInCommittee.committeeMembers"
